@@ -31,8 +31,8 @@ MODEL_A = dict(ST.BASE, NV=3, NU=0, NL=2, NLaw=0, InitBV=3, InitBU=0, Kinds={"D"
                OnlyOps={"new", "setv", "uadd", "urem"}, AllowNone=False, DoEmit=False)
 MODEL_B = dict(ST.BASE, NV=2, NU=1, NL=2, NLaw=1, InitBV=2, InitBU=1, Kinds={"D", "U"}, Fams={"link", "uni"},
                OnlyOps={"new", "setv", "uadd", "urem"}, AllowNone=False, DoEmit=False)
-MODEL_C = dict(ST.BASE, NV=3, NU=1, NL=2, NLaw=1, InitBV=3, InitBU=1, Kinds={"D", "T"}, Fams={"link", "uni"},
-               OnlyOps={"new", "uadd", "urem"}, AllowNone=False, DoEmit=False)
+MODEL_C = dict(ST.BASE, NV=3, NU=0, NL=2, NLaw=0, InitBV=3, InitBU=0, Kinds={"D", "T"}, Fams={"link"},
+               OnlyOps={"new", "setv"}, AllowNone=False, DoEmit=False)      # (with a universe as well: 28 million states, 35 min)
 SIM = dict(ST.BASE, NV=4, NU=1, NL=5, NLaw=1, InitBV=4, InitBU=1, Kinds={"D", "U"}, Fams={"link", "expl", "uni"},
            OnlyOps={"new", "setv", "unlink", "uadd", "urem"}, AllowNone=False, DoEmit=False)
 RAND = dict(ST.BASE, NV=5, NU=1, NL=7, NLaw=1, InitBV=5, InitBU=1, Kinds={"D", "U", "T"}, Fams={"link", "expl", "uni"},
@@ -86,7 +86,7 @@ def model(run, wd, tier):
     cfgs = [("lazy-3x2-D", MODEL_A, {})]
     if tier == "thorough":
         cfgs += [("lazy-2x2-DU+uni", MODEL_B, {}),
-                 ("lazy-3x2-DT+uni+unk", MODEL_C, {"GUnks": {0, 1, 2}, "HideSets": "<-HSome"}),
+                 ("lazy-3x2-DT+unk+hide", MODEL_C, {"GUnks": {0, 1, 2}, "HideSets": "<-HSome"}),
                  ("lazy-2x2-DU+uni+dirs+hide+via", MODEL_B, {"GDirs": {0, 1, 2}, "HideSets": "<-HSome", "ViaSet": "<-VSome"})]
     for name, consts, over in cfgs:
         c = dict(consts)
